@@ -532,7 +532,7 @@ pub fn run_case(w: &mut World, c: &Case, r: &mut Report, verbose: bool) -> RunIn
             );
         }
         r.outcome(&outcome_class(op, &st));
-        let mut report = |r: &mut Report, kind: &str, desc: &str| {
+        let report = |r: &mut Report, kind: &str, desc: &str| {
             let key = if after_refusal {
                 "C03:oom:heap-unusable-afterwards".to_string()
             } else if st.refused && oom_mode && kind == "live-block-corrupted" {
@@ -559,8 +559,14 @@ pub fn run_case(w: &mut World, c: &Case, r: &mut Report, verbose: bool) -> RunIn
         if st.refused {
             info.refusal_hit = true;
         }
-        // the operation is over: a sticky refusal ends here
-        let was_sticky = w.k.refuse_from.take().is_some();
+        // the operation is over: a sticky refusal that was reached ends here
+        let was_sticky = match w.k.refuse_from {
+            Some(k) if w.k.calls > k => {
+                w.k.refuse_from = None;
+                true
+            }
+            _ => false,
+        };
         if st.refused && !matches!(op, Op::Free { .. }) {
             if !st.null {
                 if st.refused_mmap {
@@ -615,6 +621,9 @@ pub fn run_case(w: &mut World, c: &Case, r: &mut Report, verbose: bool) -> RunIn
         i += 1;
     }
     info.completed = true;
+    if !w.k.fixed_base {
+        r.outcome("arena-not-at-fixed-address(addresses-not-reproducible)");
+    }
     info.mmaps = w.k.mmaps;
     info.kinds = w.k.kinds.clone();
     info.peak_footprint = w.k.peak_footprint;
